@@ -102,7 +102,7 @@ var pureMethods = map[string]bool{
 	"(time.Time).Nanosecond": true, "(time.Time).UnixMicro": true,
 	"(reflect.Value).Len": true, "(reflect.Value).NumField": true, "(reflect.Value).Kind": true,
 	"(reflect.Value).Int": true, "(reflect.Value).Uint": true, "(reflect.Value).Type": true, "(reflect.Value).Index": true, "(reflect.Type).Elem": true,
-	"(reflect.Type).NumField": true, "(reflect.Type).Kind": true, "(reflect.Type).Name": true, "(hessian.CodecNamable).HessianCodecName": true,
+	"(reflect.Type).NumField": true, "(reflect.Type).Field": true, "(reflect.Type).Kind": true, "(reflect.Type).Name": true, "(hessian.CodecNamable).HessianCodecName": true,
 }
 
 func typeRange(w *World, t types.Type) (ISet, bool) {
@@ -706,6 +706,50 @@ var (
 	posInf = new(big.Int).Lsh(one, 200)
 )
 
+// counterStep: phi is φ(init…, φ+k…) with one constant non-zero step k on
+// every edge that depends on phi (a loop counter).
+func counterStep(phi *ssa.Phi) (int64, bool) {
+	var step int64
+	found := false
+	for _, e := range phi.Edges {
+		bo, ok := e.(*ssa.BinOp)
+		if !ok || bo.X != ssa.Value(phi) {
+			if e == ssa.Value(phi) {
+				continue
+			}
+			// an edge that does not depend on phi is an initial value
+			if ok && bo.Y == ssa.Value(phi) {
+				return 0, false
+			}
+			continue
+		}
+		c, isC := bo.Y.(*ssa.Const)
+		if !isC || c.Value == nil || (bo.Op != token.ADD && bo.Op != token.SUB) {
+			return 0, false
+		}
+		if _, _, isInt := intTypeInfoNoWorld(c.Type()); !isInt {
+			return 0, false
+		}
+		k := c.Int64()
+		if bo.Op == token.SUB {
+			k = -k
+		}
+		if k == 0 || (found && k != step) {
+			return 0, false
+		}
+		step, found = k, true
+	}
+	return step, found
+}
+
+func intTypeInfoNoWorld(t types.Type) (uint, bool, bool) {
+	b, ok := t.Underlying().(*types.Basic)
+	if !ok || b.Info()&types.IsInteger == 0 {
+		return 0, false, false
+	}
+	return 0, b.Info()&types.IsUnsigned == 0, true
+}
+
 // refine returns env refined by "cond == truth", and false if the edge is
 // infeasible.
 func (f *Flow) refine(env Env, cond *Term, truth bool) (Env, bool) {
@@ -843,6 +887,19 @@ func (f *Flow) refine(env Env, cond *Term, truth bool) (Env, bool) {
 				out[cond.key] = single(1)
 			} else {
 				out[cond.key] = single(0)
+			}
+			// the same comparison written the other way round, or negated, is decided too
+			if cond.Op == token.EQL || cond.Op == token.NEQ {
+				eq := (cond.Op == token.EQL) == truth
+				for _, pr := range [][2]*Term{{cond.A, cond.B}, {cond.B, cond.A}} {
+					ke := "(" + pr[0].key + " == " + pr[1].key + ")"
+					kn := "(" + pr[0].key + " != " + pr[1].key + ")"
+					if eq {
+						out[ke], out[kn] = single(1), single(0)
+					} else {
+						out[ke], out[kn] = single(0), single(1)
+					}
+				}
 			}
 			return out, true
 		}
@@ -1055,6 +1112,21 @@ func (f *Flow) run() {
 						hi = top.Max()
 					}
 					s = ISet{{lo, hi}}
+				}
+			}
+			// a counter φ(init, φ±k) is assumed not to wrap around: its range stops
+			// one step before the end of its type
+			if k, isCounter := counterStep(phi); isCounter {
+				if top, ok := typeRange(f.w, phi.Type()); ok {
+					lo, hi := top.Min(), top.Max()
+					if k > 0 {
+						hi = new(big.Int).Sub(hi, big.NewInt(k))
+					} else {
+						lo = new(big.Int).Sub(lo, big.NewInt(k))
+					}
+					if c := s.Intersect(ISet{{lo, hi}}); !c.Empty() {
+						s = c
+					}
 				}
 			}
 			env[key] = s
